@@ -7,7 +7,7 @@ from .. import gen, ref
 from ..core import FAILED
 
 DECIDING = ["O1:negativity", "O1:log_negativity", "O1:entanglement_of_formation", "O1:concurrence", "O1:schmidt_rank", "O1:sk_vector_norm",
-            "O1:l1_norm_coherence", "O1:schmidt_decomposition", "O2:local-unitary-invariant", "O2:entropy-additive", "O3:is_product", "O4:sk_operator_norm",
+            "O1:l1_norm_coherence", "O1:schmidt_decomposition", "O2:local-unitary-invariant", "O2:entropy-additive", "O3:is_product", "O4:sk_operator_norm", "O4:lower<=certified-relaxation",
             "O4:is_block_positive", "O1:purity", "O1:von_neumann_entropy"]
 RULE = ("bipartite pure states |psi> = sum s_i u_i (x) v_i with Haar local bases and planted Schmidt coefficients (every rank, generic and degenerate), local "
         "dimensions 2..4 incl. unequal, vector (1-D / column) and density-matrix input, dim as list / scalar / omitted; mixed states of the same sizes for the "
@@ -29,6 +29,7 @@ def cases(tier):
     out += [("mixed", r) for r in range(120 if tier == "quick" else 30000)]
     out += [("prod", r) for r in range(120 if tier == "quick" else 30000)]
     out += [("sk", r) for r in range(40 if tier == "quick" else 2400)]
+    out += [("skproj", r) for r in range(28 if tier == "quick" else 1400)]
     return out
 
 
@@ -309,7 +310,19 @@ def _run_sk(ctx, spec, rng):
     k = 1 + (r // 5) % m
     big = da * db
     kind = r % 4
-    if r % 8 == 7:
+    if spec[0] == "skproj":
+        # orthogonal projections of every rank (the routine has closed-form bounds for projections that depend on rank and dimensions), scaled or not;
+        # the ranks (da - s)(db - s) at which a generic subspace stops containing vectors of Schmidt rank s are hit on purpose
+        da, db = [(3, 3), (2, 3), (2, 4), (3, 2), (3, 4), (2, 2), (4, 2)][r % 7]
+        m, big = min(da, db), da * db
+        k = 1 + (r // 7) % max(1, m - 1)
+        crit = sorted({(da - s_) * (db - s_) for s_ in range(1, m)} | {(da - s_) * (db - s_) + 1 for s_ in range(1, m)} | {1, big - 1})
+        rank = crit[(r // 14) % len(crit)] if (r // 3) % 2 == 0 else int(rng.integers(1, big))
+        rank = min(max(rank, 1), big - 1)
+        q_, _ = np.linalg.qr(gen.rmat(rng, (big, rank), bool(r % 2)))
+        x = ref.herm(q_ @ q_.conj().T) * (1.0 if (r // 2) % 3 else float(rng.uniform(0.5, 3)))
+        kind = 5
+    elif r % 8 == 7:
         # low-rank PSD operator dominated by a (locally rotated) maximally entangled vector, local dimensions >= 3, k >= 2
         da, db = [(3, 3), (3, 4), (4, 4), (4, 3)][(r // 8) % 4]
         m, big = min(da, db), da * db
@@ -345,6 +358,20 @@ def _run_sk(ctx, spec, rng):
     ok = lo <= up + 2e-4 * scale and up >= attained - 2e-4 * scale and lo <= opn + 1e-6 * scale and up <= opn + 2e-4 * scale
     ctx.check("O4:sk_operator_norm", ok, sig=sig, nt=k < m, mech="sk_operator_norm:bracket-violated", detail=det)
     ctx.sample("O4:sk_operator_norm", det)
+    if kind in (0, 4, 5) and k < m and big <= 12:
+        # positive semidefinite X: the S(k) norm is the maximum of <v|X|v> over Schmidt rank <= k, bounded by a certified relaxation (solver proposes the
+        # multipliers, numpy eigenvalues certify): the routine's LOWER bound may not exceed it
+        from .. import certs
+
+        sdp, cert = certs.schmidt_number_upper_bound(x, da, db, k)
+        if cert is None:
+            ctx.evals["O4:lower<=certified-relaxation:solver-failed"] += 1
+        else:
+            det2 = dict(det, certified_upper_bound_on_the_norm=cert, relaxation_value=sdp)
+            ctx.check("O4:lower<=certified-relaxation", lo <= cert + 2e-5 * scale and attained <= cert + 1e-7 * scale, sig=sig + (kind == 5,), nt=cert < opn - 1e-3 * scale,
+                      mech="sk_operator_norm:lower-bound-exceeds-certified-upper-bound" if attained <= cert + 1e-7 * scale else "harness:certificate-below-attained-value",
+                      detail=det2)
+            ctx.sample("O4:lower<=certified-relaxation", det2)
     if k >= m:
         ctx.check("O4:sk_operator_norm", abs(lo - opn) <= 1e-8 * scale and abs(up - opn) <= 1e-8 * scale, sig=sig + ("k>=min",), nt=True, mech="sk_operator_norm:k>=min-dim-not-operator-norm", detail=det)
     if kind == 2:
@@ -366,3 +393,7 @@ def _run_sk(ctx, spec, rng):
         ans = ctx.call(is_block_positive, x.copy(), k, [da, db], solver=True, expect=(RuntimeError,))
         if ans is not FAILED and not isinstance(ans, RuntimeError):
             ctx.check("O4:is_block_positive", bool(ans) == want_bp, sig=sig, nt=True, mech=f"is_block_positive:wrong-verdict[want={want_bp}]", detail=dict(det, want=want_bp, got=bool(ans)))
+
+
+def _run_skproj(ctx, spec, rng):
+    _run_sk(ctx, spec, rng)
